@@ -51,7 +51,7 @@ func init() {
 		Rule: "3-4 anchor histories per configuration + generated replica histories (2-4 real nodes, local create/update/delete of every field kind, " +
 			"deliveries of heads, old ancestors and duplicates by block-closure copy + VerifMerge, shuffled anti-entropy twice). " +
 			"non-trivial = a merge arrived at a frontier with >=2 heads or at equal height with a different commit; distinct by (configuration, hash-free DAG shape).",
-		Cases: func(seed uint64, tier string) []core.Case { return simCases(seed, tierN(tier, 1500, 20000), 101) },
+		Cases: func(seed uint64, tier string) []core.Case { return simCases(seed, tierN(tier, 800, 20000), 101) },
 		Run: func(ctx context.Context, c core.Case, r *core.Rec) {
 			sim.Run(ctx, c, r, sim.Oracles{Converge: true})
 		},
@@ -63,7 +63,7 @@ func init() {
 		Rule: "same simulator biased to counters and re-delivery; after EVERY step the touched document on the touched replica is compared with fold(M_r) " +
 			"(counters = exact sum of merged increments, registers in the set of causally maximal merged writes, deleted iff a merged delete, never resurrected). " +
 			"non-trivial/distinct as C01.",
-		Cases: func(seed uint64, tier string) []core.Case { return simCases(seed, tierN(tier, 1500, 20000), 202) },
+		Cases: func(seed uint64, tier string) []core.Case { return simCases(seed, tierN(tier, 800, 20000), 202) },
 		Run: func(ctx context.Context, c core.Case, r *core.Rec) {
 			sim.Run(ctx, c, r, sim.Oracles{Fold: true})
 		},
@@ -76,7 +76,7 @@ func init() {
 			"height = 1 + max parent height (composite and per-field DAGs); stored heads (raw /db/heads and latestCommits) = maximal merged commits with stored height = block height; " +
 			"genesis blocks byte-identical across nodes. non-trivial = audit taken with a multi-head frontier; distinct by DAG shape.",
 		Cases: func(seed uint64, tier string) []core.Case {
-			cs := simCases(seed, tierN(tier, 1000, 12000), 404)
+			cs := simCases(seed, tierN(tier, 600, 12000), 404)
 			return append(genesisCases(seed, tierN(tier, 40, 800)), cs...)
 		},
 		Run: func(ctx context.Context, c core.Case, r *core.Rec) {
